@@ -1,1 +1,178 @@
-fn main() { unsafe { libsodium_sys::sodium_init(); } let mut q=[0u8;32]; dryoc::classic::crypto_core::crypto_scalarmult_base(&mut q,&[1u8;32]); println!("{:?}", q); }
+//! witness -- directed witness search on the real dryoc crate, with libsodium
+//! as the oracle.
+//!
+//! Usage:
+//!   witness <PROP> [--tier quick|thorough] [--seed N]
+//!   witness <PROP> --case NAME --input name=HEX [name=HEX ...]
+//!
+//! Prints exactly one line of JSON on stdout.
+//!   found : exit code 1      none : exit code 0      error : exit code 2
+
+mod aead;
+mod curve;
+mod hash;
+mod misc;
+mod sign;
+mod so;
+mod stream;
+mod total;
+mod util;
+
+use serde_json::json;
+use util::*;
+
+type Gen = fn(&mut Ctx) -> Search;
+
+fn property(id: &str) -> Option<(Registry, Option<Gen>)> {
+    Some(match id {
+        "C01" => (aead::C01, Some(aead::c01 as Gen)),
+        "C02" => (aead::C02, Some(aead::c02 as Gen)),
+        "C03" => (stream::C03, Some(stream::c03 as Gen)),
+        "C04" => (total::C04, Some(total::c04 as Gen)),
+        "C05" => (curve::C05, Some(curve::c05 as Gen)),
+        "C06" => (sign::C06, Some(sign::c06 as Gen)),
+        "C07" => (hash::C07, Some(hash::c07 as Gen)),
+        "C08" => (hash::C08, Some(hash::c08 as Gen)),
+        "C09" => (misc::C09, Some(misc::c09 as Gen)),
+        "C11" => (misc::C11, Some(misc::c11 as Gen)),
+        "C12" => (misc::C12, Some(misc::c12 as Gen)),
+        "C13" => (curve::C13, Some(curve::c13 as Gen)),
+        "C16" => (misc::C16, Some(misc::c16 as Gen)),
+        "C17" => (aead::C17, Some(aead::c17 as Gen)),
+        // properties about memory protection, build configurations and the
+        // type system: nothing to replay against libsodium
+        "C10" | "C14" | "C15" | "C18" | "C19" | "C20" => (&[], None),
+        _ => return None,
+    })
+}
+
+fn finish(v: serde_json::Value, code: i32) -> ! {
+    println!("{}", v);
+    std::process::exit(code);
+}
+
+fn error(detail: String) -> ! {
+    finish(json!({"status": "error", "detail": detail}), 2)
+}
+
+fn exe() -> String {
+    std::env::current_exe()
+        .ok()
+        .and_then(|p| p.to_str().map(|s| s.to_string()))
+        .unwrap_or_else(|| "/verif/cache/replay-target/release/witness".to_string())
+}
+
+fn report_found(prop: &str, f: &Found) -> ! {
+    let rerun = format!("{} {} --case {} --input {}", exe(), prop, f.case, f.input.to_args());
+    finish(
+        json!({
+            "status": "found",
+            "property": prop,
+            "case": f.case,
+            "input": f.input.to_json(),
+            "expected": f.fail.expected,
+            "actual": f.fail.actual,
+            "detail": f.fail.detail,
+            "rerun_cmd": rerun.trim_end(),
+        }),
+        1,
+    )
+}
+
+fn main() {
+    let args: Vec<String> = std::env::args().skip(1).collect();
+    if args.is_empty() || args[0].starts_with('-') {
+        error("usage: witness <PROP> [--tier quick|thorough] [--seed N] [--case NAME --input name=HEX ...]".into());
+    }
+    let prop = args[0].to_uppercase();
+    let mut tier = "quick".to_string();
+    let mut seed = 1u64;
+    let mut case: Option<String> = None;
+    let mut input = Input::new();
+    let mut k = 1;
+    while k < args.len() {
+        match args[k].as_str() {
+            "--tier" => {
+                k += 1;
+                tier = args.get(k).cloned().unwrap_or_default();
+            }
+            "--seed" => {
+                k += 1;
+                seed = match args.get(k).and_then(|s| s.parse().ok()) {
+                    Some(s) => s,
+                    None => error("--seed needs an unsigned integer".into()),
+                };
+            }
+            "--case" => {
+                k += 1;
+                case = args.get(k).cloned();
+            }
+            "--input" => {
+                k += 1;
+                while k < args.len() && !args[k].starts_with("--") {
+                    let (name, hexv) = match args[k].split_once('=') {
+                        Some(p) => p,
+                        None => error(format!("--input expects name=HEX, got '{}'", args[k])),
+                    };
+                    match unhex(hexv) {
+                        Some(v) => input = input.b(name, &v),
+                        None => error(format!("bad hex for input '{}'", name)),
+                    }
+                    k += 1;
+                }
+                continue;
+            }
+            other => error(format!("unknown argument '{}'", other)),
+        }
+        k += 1;
+    }
+    if tier != "quick" && tier != "thorough" {
+        error(format!("unknown tier '{}'", tier));
+    }
+
+    let (registry, gen) = match property(&prop) {
+        Some(p) => p,
+        None => error(format!("unknown property '{}'", prop)),
+    };
+
+    install_silent_panic_hook();
+    so::init();
+
+    let mut ctx = Ctx {
+        thorough: tier == "thorough",
+        rng: Rng::new(seed),
+        cases_run: 0,
+        registry,
+    };
+
+    // everything below runs under catch so that a harness error becomes a
+    // clean {"status":"error"} line
+    let prop2 = prop.clone();
+    let outcome = catch(move || -> (Ctx, Search) {
+        let r = if let Some(name) = case {
+            ctx.run(&name, input)
+        } else if let Some(g) = gen {
+            g(&mut ctx)
+        } else {
+            Ok(())
+        };
+        (ctx, r)
+    });
+    match outcome {
+        Err(msg) => error(format!("{}: {}", prop2, msg)),
+        Ok((ctx, Err(found))) => {
+            let _ = ctx;
+            report_found(&prop, &found)
+        }
+        Ok((ctx, Ok(()))) => {
+            if gen.is_none() {
+                finish(
+                    json!({"status": "none", "property": prop, "cases_run": 0,
+                           "detail": "no replay cases for this property"}),
+                    0,
+                )
+            }
+            finish(json!({"status": "none", "property": prop, "cases_run": ctx.cases_run}), 0)
+        }
+    }
+}
